@@ -27,3 +27,9 @@ reg("C20", weave=["context"],
     quick_runs=480000, thorough_runs=10000000,
     real=["context/pool.go"], stub=["member contexts are std context.WithCancel / Background created by the harness"],
     assumptions=["a context counts as a certain member only if, at the instant its Add returned, the pool was observed live and a certain member was still live (the statement's own wording); Adds racing the pool's end are treated as possibly-members (no obligation either way)"])
+reg("C13", weave=["concurrency/fifo", "concurrency/cmap", "concurrency/lock"],
+    quick_runs=480000, thorough_runs=10000000,
+    real=["concurrency/fifo/mutex.go", "concurrency/fifo/map.go", "concurrency/cmap/mutex.go", "concurrency/lock/context.go", "concurrency/lock/outercancel.go"],
+    stub=["critical sections, readers/writers and cancellers are harness clients; sync.Mutex/RWMutex acquisition order is decided by the simulator's lock model"],
+    assumptions=["FIFO arrival = the instant a goroutine enters the channel send of the FIFO mutex (stamped by the simulator immediately before the operation executes)",
+                 "clients pair their calls correctly; plain Delete/Clear of cmap.Mutex (not in the property's quantifier) are not issued"])
